@@ -18,7 +18,7 @@ func init() { core.Register(c01{}) }
 func (c01) ID() string    { return "C01" }
 func (c01) Level() string { return "exploration" }
 func (c01) Rule() string {
-	return "cases = seed-determined (configuration, op sequence) pairs from the boundary-aware generator over 3..12 keys; every mutating step is followed by a Get of the touched keys and every 8th step by a full dump (ListKeys, Get*, Fold, Stat.KeyNum) compared with the reference map; one extra case writes > 512 MiB into a single memory-mapped data file (6..9 MiB values) so that the mapping has to be re-established beyond the first 512 MiB unit, then dumps, takes a Backup (which un-maps and shrinks the file), reads the record at offset 0, dumps again and restarts; a further family populates 4 Ki..280 K live keys (sizes at and around powers of two and round decimal numbers) with tiny values and compares a full dump after the population, after n/8 overwrites and deletes, after one batch of 3000 entries, after a restart, after a Merge, after the restart that adopts it through the hint file and after writes on top; a case is non-trivial when it performed >=1 rotation or wrote >=1 multi-block record, and >=1 overwrite or delete of an existing key; distinct = hash of (config, executed op list)"
+	return "cases = seed-determined (configuration, op sequence) pairs from the boundary-aware generator over 3..12 keys; every mutating step is followed by a Get of the touched keys and every 8th step by a full dump (ListKeys, Get*, Fold, Stat.KeyNum) compared with the reference map; one extra case writes > 512 MiB into a single memory-mapped data file (6..9 MiB values) so that the mapping has to be re-established beyond the first 512 MiB unit, then dumps, takes a Backup (which un-maps and shrinks the file), reads the record at offset 0, dumps again and restarts; one case grows a single standard-I/O data file beyond 4 GiB (3..5 MiB values), dumps, restarts, appends three bytes of a torn chunk header beyond the 4 GiB offset, recovers, dumps, writes and restarts again; a family of cases has the name of the next data file occupied by a directory, so that every Put/Delete that needs a rotation is refused: a refused call must leave the mapping as it was (most recent SUCCESSFUL Put), live, after the obstacle is removed and after a restart; a further family populates 4 Ki..280 K live keys (sizes at and around powers of two and round decimal numbers) with tiny values and compares a full dump after the population, after n/8 overwrites and deletes, after one batch of 3000 entries, after a restart, after a Merge, after the restart that adopts it through the hint file and after writes on top; a case is non-trivial when it performed >=1 rotation or wrote >=1 multi-block record, and >=1 overwrite or delete of an existing key; distinct = hash of (config, executed op list)"
 }
 func (c01) Assumptions() []string {
 	return []string{"reference map model is the specification of Get/ListKeys/Fold", "values compared with bytes.Equal (nil == empty)", "sequential use only (concurrency is C08/C09)"}
@@ -74,6 +74,10 @@ func (c01) Cases(tier string, seed uint64) []core.Case {
 		cfg := core.Config{IndexType: core.IndexTypes[j%3], ShardNum: []int{16, 4, 1, 64, 1024, 3}[(j/3)%6], FileIO: byte((j / 2) % 2), DataFileSize: []int64{1 << 20, 256 << 10, 4 << 20}[r.Intn(3)]}
 		out = append(out, core.Case{Index: len(out), ID: fmt.Sprintf("c01-large-%04d", j), Seed: r.U64(), Data: seqCase{Cfg: cfg, NOps: -nk}})
 	}
+	// one case whose single standard-I/O data file grows beyond 4 GiB (offsets that no longer
+	// fit 32 bits), is restarted, and then recovered from a torn tail that starts beyond 4 GiB
+	out = append(out, core.Case{Index: len(out), ID: "c01-beyond-4gib", Seed: r.U64(),
+		Data: seqCase{Cfg: core.Config{IndexType: 1, ShardNum: 4, FileIO: 0, DataFileSize: 6 << 30}, NOps: -3}})
 	// writes refused by the environment: the name of the next data file is taken by a directory
 	no := 12
 	if tier == "thorough" {
@@ -84,6 +88,67 @@ func (c01) Cases(tier string, seed uint64) []core.Case {
 		out = append(out, core.Case{Index: len(out), ID: fmt.Sprintf("c01-refused-%04d", j), Seed: r.U64(), Data: seqCase{Cfg: cfg, NOps: -2, NKeys: r.Range(3, 8)}})
 	}
 	return out
+}
+
+// runBeyond4GiB: every position the engine handles is (32-bit block id, 32-bit offset in the
+// block); the byte offset in the file needs 64 bits once a file passes 4 GiB.
+func runBeyond4GiB(c core.Case, sc seqCase, w *core.Worker) core.Result {
+	res := core.Result{}
+	dir := w.Dir("huge")
+	s := core.NewSession(dir, sc.Cfg, &res)
+	s.NoStates = true
+	if !s.Open() {
+		return res
+	}
+	r := core.NewRng(c.Seed)
+	s.Exec(core.Op{Kind: "put", Key: []byte("first"), VLen: 100, VSeed: r.U64() | 1})
+	var written int64
+	for i := 0; written < 4400<<20 && !s.Dead; i++ {
+		n := r.Range(3<<20, 5<<20)
+		s.Exec(core.Op{Kind: "put", Key: []byte(fmt.Sprintf("huge%02d", i%24)), VLen: n, VSeed: r.U64() | 1})
+		written += int64(n)
+	}
+	res.Add("bytes_written_in_one_file", written)
+	step := func(what string, f func()) {
+		if s.Dead {
+			return
+		}
+		f()
+		if !s.Dead {
+			s.CheckDump(what)
+		}
+	}
+	step("with the active file beyond 4 GiB", func() {})
+	step("after a clean restart of a > 4 GiB file", func() { s.Exec(core.Op{Kind: "restart"}) })
+	step("after recovery from a torn tail that starts beyond 4 GiB", func() {
+		if !s.Close() {
+			return
+		}
+		files := core.DataFiles(dir)
+		f, err := os.OpenFile(dir+"/"+files[len(files)-1], os.O_WRONLY|os.O_APPEND, 0644)
+		if err != nil {
+			res.Verdict, res.Note = "inconclusive", err.Error()
+			s.Dead = true
+			return
+		}
+		f.Write([]byte{0x12, 0x34, 0x56}) // three bytes of a chunk header: a record torn by a crash
+		f.Close()
+		s.Open()
+		res.Add("torn_tails_beyond_4gib", 1)
+	})
+	step("after writing to the recovered file and restarting", func() {
+		s.Exec(core.Op{Kind: "put", Key: []byte("after-recovery"), VLen: 5000, VSeed: r.U64() | 1})
+		s.Exec(core.Op{Kind: "restart"})
+	})
+	if s.DB != nil {
+		s.Close()
+	}
+	res.Add("rotations", 1)
+	res.Add("boundary_records", 1)
+	res.Nontrivial = written > 4<<30 && res.Counters["torn_tails_beyond_4gib"] > 0
+	res.Hash = core.HashBytes([]byte("beyond-4gib"))
+	res.Sample = map[string]any{"kind": "beyond-4gib", "bytes_written_in_one_file": written, "ops": len(s.Log)}
+	return res
 }
 
 // runRefused: "the most recent SUCCESSFUL Put": while the next data file cannot be created
@@ -372,6 +437,9 @@ func (c01) Run(c core.Case, w *core.Worker) core.Result {
 	}
 	if sc.NOps == -2 {
 		return runRefused(c, sc, w)
+	}
+	if sc.NOps == -3 {
+		return runBeyond4GiB(c, sc, w)
 	}
 	if sc.NOps < 0 {
 		return runLargePopulation(c, sc, w)
